@@ -47,6 +47,13 @@ def _limit_worker():
         resource.setrlimit(resource.RLIMIT_AS, (lim, lim))
     except (ValueError, OSError):
         pass
+    # a worker must not outlive a check that was killed (it would sit on its memory): die with the parent
+    try:
+        import ctypes
+        import signal
+        ctypes.CDLL("libc.so.6", use_errno=True).prctl(1, signal.SIGKILL)      # PR_SET_PDEATHSIG
+    except Exception:  # noqa: BLE001
+        pass
 
 
 def pmap(fn, items, workers=16, chunksize=1):
